@@ -79,7 +79,7 @@ pub proof fn lemma_append_unit(s: Seq<char>, u: Seq<char>, i: int, is_desc: bool
                 assert(s0 + u1 + u2 =~= sanitized@);
             }
         }
-//@BEFORE 3 if previous_backslash {
+//@AFTERLOOP 1
     let ghost s1 = sanitized@;
 //@BEFORE 1 =sanitized
     proof {
